@@ -46,6 +46,7 @@ type Clause struct {
 	CbArgs []string
 	Ghost  string // updates target / ghost name / old name
 	Type   string // ghost type
+	Matched int   // call-site clauses: number of call sites the clause was applied to in this run
 }
 
 type FuncContract struct {
